@@ -611,6 +611,22 @@ def run_ctor(case, seed, R):
     R.expect_close(J, np.array([ctor_ref(name, v) for v in per]).reshape(shape + (2, 2)), 32 * TOLU, sig, f'{name} batched {shape} vs reference')
     if name in ('linear_retarder', 'half_wave_plate', 'quarter_wave_plate', 'jones_rotation_matrix'):
         check_unitary(R, J, sig, f'{name} batched {shape}')
+    # broadcastable angle maps: one angle per ROW (M,1), per COLUMN (1,N) or a 1-D vector (N,) against shape=(M,N) -- equal to the
+    # construction from the broadcast full map, element by element (cyclic repetition of the flattened data is not broadcasting)
+    if arrays == ['theta'] and len(shape) == 2 and shape[0] > 1 and shape[1] > 1:
+        M, N = shape
+        pool = al['theta']
+        forms = {'per-row': np.array([pool[(off + 3 * i) % len(pool)] for i in range(M)], dtype=float).reshape(M, 1),
+                 'per-column': np.array([pool[(off + 1 + 2 * j) % len(pool)] for j in range(N)], dtype=float).reshape(1, N),
+                 'vector': np.array([pool[(off + 2 + j) % len(pool)] for j in range(N)], dtype=float)}
+        for fname, th in forms.items():
+            kw = dict(kwargs, theta=th.copy())
+            Jb = valid(R, R.call(f, **kw, shape=list(shape), sig=sig + f':{fname}'), shape + (2, 2), sig + f':{fname}', f'{name}(theta {fname} {th.shape}, shape={shape})')
+            if Jb is None:
+                continue
+            full = np.broadcast_to(th, shape)
+            want = np.array([ctor_ref(name, dict(per[0], theta=float(full[i, j]))) for i in range(M) for j in range(N)]).reshape(shape + (2, 2))
+            R.expect_close(Jb, want, 32 * TOLU, sig + ':broadcast-theta', f'{name} with a {fname} angle map {th.shape} against shape={shape} vs the element-by-element reference of the broadcast map')
     R.nontrivial(bool(arrays))
     R.outcome('batched' if arrays else 'shape-only')
 
